@@ -173,8 +173,9 @@ func checkTree(text string, f directives.File) (v *Violation) {
 			return V("nil-directive", "directive %d has no payload", i)
 		}
 		ir := inner.FieldByName("Range").Interface().(directives.Range)
-		if ir.Start != d.Start || ir.End != d.End {
-			return V("wrapper-range", "directive %d: wrapper [%d,%d) vs payload [%d,%d)", i, d.Start, d.End, ir.Start, ir.End)
+		// the payload lies within the wrapper (the wrapper may additionally cover annotation lines in front of it)
+		if ir.Start < d.Start || ir.End > d.End {
+			return V("wrapper-range", "directive %d: payload [%d,%d) outside its wrapper [%d,%d)", i, ir.Start, ir.End, d.Start, d.End)
 		}
 		if wv := walk(text, inner, d.Range, fmt.Sprintf("directive[%d].%s", i, inner.Type().Name()), false); wv != nil {
 			return wv
